@@ -3,7 +3,7 @@ import AcraModel.KeystoreSec.Concurrent
 namespace AcraModel.KeystoreSec.Conc
 
 def inCS (pc : PC) : Prop := pc = .locked ∨ pc = .got ∨ pc = .put ∨ pc = .renamed ∨ pc = .failed
-def isReader (pc : PC) : Prop := pc = .rlocked ∨ pc = .rgot
+def isReader (pc : PC) : Prop := pc = .rlocked ∨ pc = .rgot ∨ pc = .rfailed
 
 instance (pc : PC) : Decidable (inCS pc) := by unfold inCS; infer_instance
 instance (pc : PC) : Decidable (isReader pc) := by unfold isReader; infer_instance
@@ -32,6 +32,13 @@ structure Inv (c0 : Nat → Ring) (s : St) : Prop where
   noNew : ∀ p, s.new p ≠ none → ∃ i, (s.h i).pc = .put ∧ (s.h i).path = p
   lin : ∀ p, replay (c0 p) (commitsOn s p) = some (s.cur p)
   mine : ∀ i, commitsBy s i = okWrites (s.h i).done ++ (if (s.h i).pc = .renamed then [(s.h i).txs] else [])
+  /-- a missing ring file is represented by the empty ring and nothing was ever committed on its path -/
+  miss : ∀ p, s.ex p = false → s.cur p = emptyRing ∧ commitsOn s p = []
+  /-- between `Get` and `Rename` the ring is missing exactly when the operation is `OpenKeyRingRW`
+  (which then pushes no transactions): only `openKeyRing` creates, and only a ring that is not there -/
+  crt : ∀ i, ((s.h i).pc = .got ∨ (s.h i).pc = .put) →
+    ((s.ex (s.h i).path = false ↔ ∃ rest, (s.h i).todo = .open :: rest) ∧
+     (s.ex (s.h i).path = false → (s.h i).txs = []))
 
 theorem okWrites_snoc_none (d : List (Op × Option (List Tx))) (op : Op) :
     okWrites (d ++ [(op, none)]) = okWrites d := by
@@ -97,6 +104,11 @@ theorem inv_rlock (c0 : Nat → Ring) (s : St) (i : Nat) (h : Inv c0 s)
       simp only [hpc] at this
       simpa [commitsBy] using this
     · simp only [upd, if_neg hji]; exact h.mine j
+  · exact h.miss
+  · intro j hj
+    by_cases hji : j = i
+    · subst hji; simp at hj
+    · simp only [upd, if_neg hji] at hj ⊢; exact h.crt j hj
 
 /-- a local step of thread `i` inside its critical section or from idle to idle that changes neither
 the lock nor the files nor the commit log: new handle `hd'` keeps path; obligations as hypotheses -/
@@ -108,6 +120,8 @@ theorem inv_local (c0 : Nat → Ring) (s : St) (i : Nat) (h : Inv c0 s) (hd' : H
     (hgot : hd'.pc = .got → hd'.snap = s.cur hd'.path ∧ (applyAll hd'.txs hd'.snap).isSome)
     (hput : hd'.pc = .put → s.new hd'.path = some hd'.snap ∧ applyAll hd'.txs (s.cur hd'.path) = some hd'.snap)
     (hnp : (s.h i).pc = .put → hd'.pc = .put ∧ hd'.path = (s.h i).path)
+    (hcrt : (hd'.pc = .got ∨ hd'.pc = .put) →
+      ((s.ex hd'.path = false ↔ ∃ rest, hd'.todo = .open :: rest) ∧ (s.ex hd'.path = false → hd'.txs = [])))
     (hmine : okWrites hd'.done ++ (if hd'.pc = .renamed then [hd'.txs] else []) =
              okWrites (s.h i).done ++ (if (s.h i).pc = .renamed then [(s.h i).txs] else [])) :
     Inv c0 { s with h := upd s.h i hd' } := by
@@ -153,6 +167,11 @@ theorem inv_local (c0 : Nat → Ring) (s : St) (i : Nat) (h : Inv c0 s) (hd' : H
       rw [hmine]
       exact h.mine j
     · simp only [upd, if_neg hji]; exact h.mine j
+  · exact h.miss
+  · intro j hj
+    by_cases hji : j = i
+    · subst hji; simp only [upd_same] at hj ⊢; exact hcrt hj
+    · simp only [upd, if_neg hji] at hj ⊢; exact h.crt j hj
 
 
 
@@ -205,6 +224,11 @@ theorem inv_lock (c0 : Nat → Ring) (s : St) (i : Nat) (h : Inv c0 s) (txs : Li
       simp [upd, commitsBy] at this ⊢
       exact this
     · simp [upd, hji]; exact h.mine j
+  · exact h.miss
+  · intro j hj
+    by_cases hji : j = i
+    · subst hji; simp at hj
+    · simp only [upd, if_neg hji] at hj ⊢; exact h.crt j hj
 
 
 /-- got → put: `Put <ring>.keyring.new` succeeded -/
@@ -263,12 +287,18 @@ theorem inv_put (c0 : Nat → Ring) (s : St) (i : Nat) (h : Inv c0 s) (r' : Ring
       simp only [hpc] at this
       simpa [commitsBy] using this
     · simp only [upd, if_neg hji]; exact h.mine j
+  · exact h.miss
+  · intro j hj
+    by_cases hji : j = i
+    · subst hji; simp only [upd_same]; exact h.crt j (Or.inl hpc)
+    · simp only [upd, if_neg hji] at hj ⊢; exact h.crt j hj
 
 /-- put → renamed: the atomic rename, the linearisation point -/
 theorem inv_rename (c0 : Nat → Ring) (s : St) (i : Nat) (h : Inv c0 s) (r' : Ring)
     (hpc : (s.h i).pc = .put) (hnew : s.new (s.h i).path = some r') :
     Inv c0 { s with cur := upd s.cur (s.h i).path r', new := upd s.new (s.h i).path none,
                     commits := s.commits ++ [⟨i, (s.h i).path, (s.h i).txs⟩],
+                    ex := upd s.ex (s.h i).path true,
                     h := upd s.h i { s.h i with pc := .renamed } } := by
   have hcsi : inCS (s.h i).pc := by simp [inCS, hpc]
   have hwi := h.holder i hcsi
@@ -341,6 +371,22 @@ theorem inv_rename (c0 : Nat → Ring) (s : St) (i : Nat) (h : Inv c0 s) (r' : R
     · have : (List.filter (fun x => decide (x.tid = j)) [(⟨i, (s.h i).path, (s.h i).txs⟩ : Commit)]) = [] := by simp [Ne.symm hji]
       simp only [List.filter_append, this, List.append_nil, upd, if_neg hji]
       exact hm
+  · intro p hp
+    by_cases hpp : p = (s.h i).path
+    · subst hpp; simp [upd] at hp
+    · simp only [upd, if_neg hpp] at hp ⊢
+      obtain ⟨a, b⟩ := h.miss p hp
+      refine ⟨a, ?_⟩
+      have : (List.filter (fun x => decide (x.path = p)) [(⟨i, (s.h i).path, (s.h i).txs⟩ : Commit)]) = [] := by simp [Ne.symm hpp]
+      simp only [commitsOn] at b ⊢
+      simp only [List.filter_append, this, List.append_nil]
+      exact b
+  · intro j hj
+    by_cases hji : j = i
+    · subst hji; simp at hj
+    · simp only [upd, if_neg hji] at hj
+      have : inCS (s.h j).pc := by rcases hj with hj | hj <;> simp [inCS, hj]
+      exact absurd (cs_unique h hcsi this) hji
 
 /-- renamed/failed → idle: `Unlock`, the operation is finished with result `res` -/
 theorem inv_unlock (c0 : Nat → Ring) (s : St) (i : Nat) (h : Inv c0 s) (res : Option (List Tx))
@@ -404,14 +450,19 @@ theorem inv_unlock (c0 : Nat → Ring) (s : St) (i : Nat) (h : Inv c0 s) (res : 
         simp [okWrites_snoc_none]
         simpa [commitsBy] using this
     · simp only [upd, if_neg hji]; exact h.mine j
+  · exact h.miss
+  · intro j hj
+    by_cases hji : j = i
+    · subst hji; simp at hj
+    · simp only [upd, if_neg hji] at hj ⊢; exact h.crt j hj
 
-/-- rgot → idle: `RUnlock` -/
-theorem inv_runlock (c0 : Nat → Ring) (s : St) (i : Nat) (h : Inv c0 s)
-    (hpc : (s.h i).pc = .rgot) :
-    Inv c0 { s with readers := s.readers.erase i, h := upd s.h i (finish (s.h i) (some [])) } := by
-  have hri : isReader (s.h i).pc := by simp [isReader, hpc]
+/-- rgot/rfailed → idle: `RUnlock` -/
+theorem inv_runlock (c0 : Nat → Ring) (s : St) (i : Nat) (h : Inv c0 s) (res : Option (List Tx))
+    (hpc : (s.h i).pc = .rgot ∨ (s.h i).pc = .rfailed) :
+    Inv c0 { s with readers := s.readers.erase i, h := upd s.h i (finish (s.h i) res) } := by
+  have hri : isReader (s.h i).pc := by rcases hpc with a | a <;> simp [isReader, a]
   obtain ⟨rest, htodo⟩ := h.todoR i hri
-  have hfin : finish (s.h i) (some []) = { s.h i with pc := .idle, txs := [], todo := rest, done := (s.h i).done ++ [(.refresh, some [])] } := by
+  have hfin : finish (s.h i) res = { s.h i with pc := .idle, txs := [], todo := rest, done := (s.h i).done ++ [(.refresh, res)] } := by
     simp [finish, htodo]
   rw [hfin]
   constructor
@@ -445,18 +496,102 @@ theorem inv_runlock (c0 : Nat → Ring) (s : St) (i : Nat) (h : Inv c0 s)
     · simp only [upd, if_neg hji] at hj ⊢; exact h.putOk j hj
   · intro p hp
     obtain ⟨j, hj1, hj2⟩ := h.noNew p hp
-    have hji : j ≠ i := by intro e; subst e; simp [hpc] at hj1
+    have hji : j ≠ i := by intro e; subst e; rcases hpc with a | a <;> simp [a] at hj1
     exact ⟨j, by simp only [upd, if_neg hji]; exact hj1, by simp only [upd, if_neg hji]; exact hj2⟩
   · exact h.lin
   · intro j
     by_cases hji : j = i
     · subst hji
       have := h.mine j
-      simp only [upd_same, hpc] at this ⊢
+      have hnr : (s.h j).pc ≠ .renamed := by rcases hpc with a | a <;> simp [a]
+      simp only [upd_same, if_neg hnr] at this ⊢
       simp [okWrites_snoc_refresh]
       simpa [commitsBy] using this
     · simp only [upd, if_neg hji]; exact h.mine j
+  · exact h.miss
+  · intro j hj
+    by_cases hji : j = i
+    · subst hji; simp at hj
+    · simp only [upd, if_neg hji] at hj ⊢; exact h.crt j hj
 
+/-- locked → renamed: `openKeyRing` found its ring (`Get` succeeded): the snapshot is loaded, nothing is
+written; the operation is linearised here with the empty transaction list -/
+theorem inv_openExisting (c0 : Nat → Ring) (s : St) (i : Nat) (h : Inv c0 s) (rest : List Op)
+    (hpc : (s.h i).pc = .locked) (htodo : (s.h i).todo = .open :: rest) (hex : s.ex (s.h i).path = true) :
+    Inv c0 { s with commits := s.commits ++ [⟨i, (s.h i).path, []⟩],
+                    h := upd s.h i { s.h i with pc := .renamed, snap := s.cur (s.h i).path, txs := [] } } := by
+  have hcsi : inCS (s.h i).pc := by simp [inCS, hpc]
+  have hwi := h.holder i hcsi
+  constructor
+  · intro j hj
+    by_cases hji : j = i
+    · subst hji; exact hwi
+    · simp only [upd, if_neg hji] at hj; exact h.holder j hj
+  · intro j
+    by_cases hji : j = i
+    · subst hji; simp only [upd_same]
+      have := h.rd j; simp [hpc, isReader] at this ⊢; exact this
+    · simp only [upd, if_neg hji]; exact h.rd j
+  · exact h.rdNodup
+  · exact h.excl
+  · intro j hj
+    by_cases hji : j = i
+    · subst hji; simp only [upd_same]; exact h.todoW j hcsi
+    · simp only [upd, if_neg hji] at hj ⊢; exact h.todoW j hj
+  · intro j hj
+    by_cases hji : j = i
+    · subst hji; simp [isReader] at hj
+    · simp only [upd, if_neg hji] at hj ⊢; exact h.todoR j hj
+  · intro j hj
+    by_cases hji : j = i
+    · subst hji; simp at hj
+    · simp only [upd, if_neg hji] at hj ⊢; exact h.gotOk j hj
+  · intro j hj
+    by_cases hji : j = i
+    · subst hji; simp at hj
+    · simp only [upd, if_neg hji] at hj ⊢; exact h.putOk j hj
+  · intro p hp
+    obtain ⟨j, hj1, hj2⟩ := h.noNew p hp
+    have hji : j ≠ i := by intro e; subst e; simp [hpc] at hj1
+    exact ⟨j, by simp only [upd, if_neg hji]; exact hj1, by simp only [upd, if_neg hji]; exact hj2⟩
+  · intro p
+    show replay (c0 p) (((s.commits ++ [(⟨i, (s.h i).path, []⟩ : Commit)]).filter (·.path = p)).map (·.txs)) = some (s.cur p)
+    have hl := h.lin p
+    simp only [commitsOn] at hl
+    by_cases hpp : p = (s.h i).path
+    · subst hpp
+      simp only [List.filter_append, List.map_append]
+      have : (List.filter (fun x => decide (x.path = (s.h i).path)) [(⟨i, (s.h i).path, []⟩ : Commit)]).map (·.txs) = [[]] := by simp
+      rw [this, replay_snoc, hl]
+      simp [applyAll]
+    · have : (List.filter (fun x => decide (x.path = p)) [(⟨i, (s.h i).path, []⟩ : Commit)]) = [] := by simp [Ne.symm hpp]
+      simp only [List.filter_append, this, List.append_nil]
+      exact hl
+  · intro j
+    show ((s.commits ++ [(⟨i, (s.h i).path, []⟩ : Commit)]).filter (·.tid = j)).map (·.txs) = okWrites ((upd s.h i { s.h i with pc := .renamed, snap := s.cur (s.h i).path, txs := [] }) j).done ++ (if ((upd s.h i { s.h i with pc := .renamed, snap := s.cur (s.h i).path, txs := [] }) j).pc = .renamed then [((upd s.h i { s.h i with pc := .renamed, snap := s.cur (s.h i).path, txs := [] }) j).txs] else [])
+    have hm := h.mine j
+    simp only [commitsBy] at hm
+    by_cases hji : j = i
+    · subst hji
+      simp only [hpc] at hm
+      simp only [List.filter_append, List.map_append, upd_same]
+      rw [hm]
+      simp
+    · have : (List.filter (fun x => decide (x.tid = j)) [(⟨i, (s.h i).path, []⟩ : Commit)]) = [] := by simp [Ne.symm hji]
+      simp only [List.filter_append, this, List.append_nil, upd, if_neg hji]
+      exact hm
+  · intro p hp
+    obtain ⟨a, b⟩ := h.miss p hp
+    refine ⟨a, ?_⟩
+    have hpp : p ≠ (s.h i).path := by intro e; subst e; simp [hex] at hp
+    have : (List.filter (fun x => decide (x.path = p)) [(⟨i, (s.h i).path, []⟩ : Commit)]) = [] := by simp [Ne.symm hpp]
+    simp only [commitsOn] at b ⊢
+    simp only [List.filter_append, this, List.append_nil]
+    exact b
+  · intro j hj
+    by_cases hji : j = i
+    · subst hji; simp at hj
+    · simp only [upd, if_neg hji] at hj ⊢; exact h.crt j hj
 
 theorem inv_of_eq {c0 : Nat → Ring} {s s' : St} (e : s' = s) (h : Inv c0 s) : Inv c0 s' := e ▸ h
 
@@ -476,7 +611,7 @@ theorem step_inv (c0 : Nat → Ring) (s : St) (i : Nat) (h : Inv c0 s) : Inv c0 
         | none =>
           have hfin : finish (s.h i) none = { s.h i with pc := .idle, txs := [], todo := rest, done := (s.h i).done ++ [(op, none)] } := by
             simp [finish, htodo]
-          refine inv_of_eq (by simp [step, stepCall, hpc, htodo, hop, hprep]) (inv_local c0 s i h (finish (s.h i) none) ?_ ?_ ?_ ?_ ?_ ?_ ?_ ?_)
+          refine inv_of_eq (by simp [step, stepCall, hpc, htodo, hop, hprep]) (inv_local c0 s i h (finish (s.h i) none) ?_ ?_ ?_ ?_ ?_ ?_ ?_ ?_ ?_)
           all_goals rw [hfin]
           · intro hc; simp [inCS] at hc
           · simp [isReader, hpc]
@@ -485,6 +620,7 @@ theorem step_inv (c0 : Nat → Ring) (s : St) (i : Nat) (h : Inv c0 s) : Inv c0 
           · intro hc; simp at hc
           · intro hc; simp at hc
           · intro hc; simp [hpc] at hc
+          · intro hc; simp at hc
           · simp [hpc, okWrites_snoc_none]
         | some txs =>
           by_cases hl : s.writer = none ∧ s.readers = []
@@ -492,27 +628,57 @@ theorem step_inv (c0 : Nat → Ring) (s : St) (i : Nat) (h : Inv c0 s) : Inv c0 
           · exact inv_of_eq (by simp [step, stepCall, hpc, htodo, hop, hprep, hl]) h
   | locked =>
     have hcsi : inCS (s.h i).pc := by simp [inCS, hpc]
-    cases happ : applyAll (s.h i).txs (s.cur (s.h i).path) with
-    | none =>
-      refine inv_of_eq (by simp [step, stepCall, hpc, happ]) (inv_local c0 s i h { s.h i with pc := .failed, snap := s.cur (s.h i).path } ?_ ?_ ?_ ?_ ?_ ?_ ?_ ?_)
-      · intro _; exact h.holder i hcsi
-      · simp [isReader, hpc]
-      · intro _; exact h.todoW i hcsi
-      · intro hc; simp [isReader] at hc
-      · intro hc; simp at hc
-      · intro hc; simp at hc
-      · intro hc; simp [hpc] at hc
-      · simp [hpc]
-    | some r' =>
-      refine inv_of_eq (by simp [step, stepCall, hpc, happ]) (inv_local c0 s i h { s.h i with pc := .got, snap := s.cur (s.h i).path } ?_ ?_ ?_ ?_ ?_ ?_ ?_ ?_)
-      · intro _; exact h.holder i hcsi
-      · simp [isReader, hpc]
-      · intro _; exact h.todoW i hcsi
-      · intro hc; simp [isReader] at hc
-      · intro _; simp [happ]
-      · intro hc; simp at hc
-      · intro hc; simp [hpc] at hc
-      · simp [hpc]
+    obtain ⟨op, rest, htodo, hop⟩ := h.todoW i hcsi
+    by_cases hex : s.ex (s.h i).path = true
+    · by_cases hopen : op = .open
+      · subst hopen
+        exact inv_of_eq (by simp [step, stepCall, hpc, htodo, hex]) (inv_openExisting c0 s i h rest hpc htodo hex)
+      · cases happ : applyAll (s.h i).txs (s.cur (s.h i).path) with
+        | none =>
+          refine inv_of_eq (by simp [step, stepCall, hpc, htodo, hex, hopen, happ]) (inv_local c0 s i h { s.h i with pc := .failed, snap := s.cur (s.h i).path } ?_ ?_ ?_ ?_ ?_ ?_ ?_ ?_ ?_)
+          · intro _; exact h.holder i hcsi
+          · simp [isReader, hpc]
+          · intro _; exact h.todoW i hcsi
+          · intro hc; simp [isReader] at hc
+          · intro hc; simp at hc
+          · intro hc; simp at hc
+          · intro hc; simp [hpc] at hc
+          · intro hc; simp at hc
+          · simp [hpc]
+        | some r' =>
+          refine inv_of_eq (by simp [step, stepCall, hpc, htodo, hex, hopen, happ]) (inv_local c0 s i h { s.h i with pc := .got, snap := s.cur (s.h i).path } ?_ ?_ ?_ ?_ ?_ ?_ ?_ ?_ ?_)
+          · intro _; exact h.holder i hcsi
+          · simp [isReader, hpc]
+          · intro _; exact h.todoW i hcsi
+          · intro hc; simp [isReader] at hc
+          · intro _; simp [happ]
+          · intro hc; simp at hc
+          · intro hc; simp [hpc] at hc
+          · intro _; simp [hex, htodo, hopen]
+          · simp [hpc]
+    · have hex' : s.ex (s.h i).path = false := by simpa using hex
+      by_cases hopen : op = .open
+      · subst hopen
+        refine inv_of_eq (by simp [step, stepCall, hpc, htodo, hex']) (inv_local c0 s i h { s.h i with pc := .got, snap := emptyRing, txs := [] } ?_ ?_ ?_ ?_ ?_ ?_ ?_ ?_ ?_)
+        · intro _; exact h.holder i hcsi
+        · simp [isReader, hpc]
+        · intro _; exact h.todoW i hcsi
+        · intro hc; simp [isReader] at hc
+        · intro _; exact ⟨((h.miss _ hex').1).symm, by simp [applyAll]⟩
+        · intro hc; simp at hc
+        · intro hc; simp [hpc] at hc
+        · intro _; simp [hex', htodo]
+        · simp [hpc]
+      · refine inv_of_eq (by simp [step, stepCall, hpc, htodo, hex', hopen]) (inv_local c0 s i h { s.h i with pc := .failed } ?_ ?_ ?_ ?_ ?_ ?_ ?_ ?_ ?_)
+        · intro _; exact h.holder i hcsi
+        · simp [isReader, hpc]
+        · intro _; exact h.todoW i hcsi
+        · intro hc; simp [isReader] at hc
+        · intro hc; simp at hc
+        · intro hc; simp at hc
+        · intro hc; simp [hpc] at hc
+        · intro hc; simp at hc
+        · simp [hpc]
   | got =>
     have hcsi : inCS (s.h i).pc := by simp [inCS, hpc]
     cases happ : applyAll (s.h i).txs (s.h i).snap with
@@ -542,17 +708,32 @@ theorem step_inv (c0 : Nat → Ring) (s : St) (i : Nat) (h : Inv c0 s) : Inv c0 
     exact inv_of_eq (by simp [step, stepCall, hpc]) (inv_unlock c0 s i h none (Or.inr ⟨hpc, rfl⟩))
   | rlocked =>
     have hri : isReader (s.h i).pc := by simp [isReader, hpc]
-    refine inv_of_eq (by simp [step, stepCall, hpc]) (inv_local c0 s i h { s.h i with pc := .rgot, snap := s.cur (s.h i).path } ?_ ?_ ?_ ?_ ?_ ?_ ?_ ?_)
-    · intro hc; simp [inCS] at hc
-    · simp [isReader, hpc]
-    · intro hc; simp [inCS] at hc
-    · intro _; exact h.todoR i hri
-    · intro hc; simp at hc
-    · intro hc; simp at hc
-    · intro hc; simp [hpc] at hc
-    · simp [hpc]
+    by_cases hex : s.ex (s.h i).path = true
+    · refine inv_of_eq (by simp [step, stepCall, hpc, hex]) (inv_local c0 s i h { s.h i with pc := .rgot, snap := s.cur (s.h i).path } ?_ ?_ ?_ ?_ ?_ ?_ ?_ ?_ ?_)
+      · intro hc; simp [inCS] at hc
+      · simp [isReader, hpc]
+      · intro hc; simp [inCS] at hc
+      · intro _; exact h.todoR i hri
+      · intro hc; simp at hc
+      · intro hc; simp at hc
+      · intro hc; simp [hpc] at hc
+      · intro hc; simp at hc
+      · simp [hpc]
+    · have hex' : s.ex (s.h i).path = false := by simpa using hex
+      refine inv_of_eq (by simp [step, stepCall, hpc, hex']) (inv_local c0 s i h { s.h i with pc := .rfailed } ?_ ?_ ?_ ?_ ?_ ?_ ?_ ?_ ?_)
+      · intro hc; simp [inCS] at hc
+      · simp [isReader, hpc]
+      · intro hc; simp [inCS] at hc
+      · intro _; exact h.todoR i hri
+      · intro hc; simp at hc
+      · intro hc; simp at hc
+      · intro hc; simp [hpc] at hc
+      · intro hc; simp at hc
+      · simp [hpc]
   | rgot =>
-    exact inv_of_eq (by simp [step, stepCall, hpc]) (inv_runlock c0 s i h hpc)
+    exact inv_of_eq (by simp [step, stepCall, hpc]) (inv_runlock c0 s i h (some []) (Or.inl hpc))
+  | rfailed =>
+    exact inv_of_eq (by simp [step, stepCall, hpc]) (inv_runlock c0 s i h none (Or.inr hpc))
 
 /-- **Every schedule preserves the invariant.** -/
 theorem run_inv (c0 : Nat → Ring) (s : St) (sched : List Nat) (h : Inv c0 s) : Inv c0 (run s sched) := by
